@@ -297,3 +297,24 @@ class NMEA2000Decoder(_RealDecoder, metaclass=_EmbeddingMeta):          # noqa: 
 
 NMEA2000Decoder.__name__ = _RealDecoder.__name__
 NMEA2000Decoder.__qualname__ = _RealDecoder.__qualname__
+
+
+_RealEncoder = NMEA2000Encoder
+
+
+class NMEA2000Encoder(_RealEncoder):          # noqa: F811
+    """What the checks use as the encoder: an application subclass that keeps the public attribute `sequence_counter` in a
+    property of its own (a counter persisted or shared by the application). The library's class works through the public
+    name, so nothing changes for it; state it keeps behind that name's back would go stale."""
+
+    @property
+    def sequence_counter(self):
+        return self.__dict__.get("_vf_sequence_counter", 0)
+
+    @sequence_counter.setter
+    def sequence_counter(self, value):
+        self.__dict__["_vf_sequence_counter"] = value
+
+
+NMEA2000Encoder.__name__ = _RealEncoder.__name__
+NMEA2000Encoder.__qualname__ = _RealEncoder.__qualname__
